@@ -325,7 +325,44 @@ def zero_is_a_value_rule(index, rep, rid, modules, exempt=None):
                 n += 1
                 rep.check(not filled, rid, fi.qualname, "`%s` replaced when empty" % pn, fn_where(fi, st), "",
                           "%s replaces its parameter `%s` by a fresh container whenever it is empty (`%s`) and then fills it or hands it on: a caller that passes in an empty dict/list to collect the result (a mapping memo, an out-parameter) gets nothing back, because the function worked on a container of its own" % (fi.qualname, pn, norm_stmt(st)[:60]))
+            # (e) a comprehension keeps or drops ELEMENTS by their bare truthiness only when the elements are pieces of
+            #     text (what split() produced): over values of the data model, 0 / 0.0 / False are elements too
+            for comp in ast.walk(fi.node):
+                if not isinstance(comp, (ast.ListComp, ast.GeneratorExp, ast.SetComp, ast.DictComp)):
+                    continue
+                for gen in comp.generators:
+                    if not isinstance(gen.target, ast.Name):
+                        continue
+                    for cond in gen.ifs:
+                        tst = cond.operand if isinstance(cond, ast.UnaryOp) and isinstance(cond.op, ast.Not) else cond
+                        if not (isinstance(tst, ast.Name) and tst.id == gen.target.id):
+                            continue
+                        n += 1
+                        rep.check(_yields_text(gen.iter, fi), rid, fi.qualname, "elements of `%s` filtered by truthiness" % norm(gen.iter)[:50], fn_where(fi, comp), "%s filters pieces of text by emptiness" % fi.qualname,
+                                  "%s filters the elements of `%s` by their bare truthiness (`%s`): the elements are not known to be pieces of text, and among values of the data model 0, 0.0 and False are values - a continuous character of exactly 0.0, a zero weight, a state of index 0 - which this drops as if they were unassigned" % (fi.qualname, norm(gen.iter)[:50], norm(comp)[:80]))
     return n
+
+
+_TEXT_SPLITTERS = ("split", "rsplit", "splitlines", "readlines", "findall", "strip")
+
+
+def _yields_text(e, fi, depth=0):
+    """True when the iterable is visibly a sequence of strings: the result of a split, or a local built from one."""
+    if isinstance(e, ast.Call):
+        cn = call_name(e)
+        if cn in _TEXT_SPLITTERS:
+            return True
+        if cn in ("list", "tuple", "sorted", "reversed", "set") and e.args:
+            return _yields_text(e.args[0], fi, depth)
+        return False
+    if isinstance(e, (ast.ListComp, ast.GeneratorExp, ast.SetComp)):
+        if isinstance(e.elt, ast.Call) and call_name(e.elt) in ("strip", "lstrip", "rstrip", "lower", "upper", "str", "format", "join"):
+            return True
+        return len(e.generators) == 1 and isinstance(e.elt, ast.Name) and isinstance(e.generators[0].target, ast.Name) and e.elt.id == e.generators[0].target.id and _yields_text(e.generators[0].iter, fi, depth)
+    if isinstance(e, ast.Name) and depth < 2:
+        defs = [a.value for a in ast.walk(fi.node) if isinstance(a, ast.Assign) and any(isinstance(t, ast.Name) and t.id == e.id for t in a.targets)]
+        return bool(defs) and all(_yields_text(d, fi, depth + 1) for d in defs)
+    return False
 
 
 def _canon_names(text, fi):
